@@ -409,14 +409,64 @@ impl OpCode {
 }
 
 /// Computes the weight of a bunch of opcodes.
+///
+/// The weight of a `Loop` is one plus its iteration count times the weight of its body, the body
+/// being clipped to the end of whatever range encloses the loop. Computing that by recursion
+/// re-weighs the body of every loop once per enclosing loop, which is exponential in the nesting
+/// depth; instead every place where a body can end is handled once, innermost ends first, so the
+/// cost is at most (opcodes x distinct body ends) while every weight stays exactly the same.
 pub fn opcodes_weight(opcodes: &[OpCode]) -> u128 {
-    let (mut sum, mut rest) = opcodes_car_weight(opcodes);
-    while !rest.is_empty() {
-        let (delta_sum, new_rest) = opcodes_car_weight(rest);
-        rest = new_rest;
-        sum = sum.saturating_add(delta_sum);
+    let n = opcodes.len();
+    let body_end = |i: usize, body_len: u16| (i + 1).saturating_add(body_len as usize);
+    // for every place strictly inside the program where some loop body ends: the first such loop
+    let mut ends: Vec<(usize, usize)> = opcodes
+        .iter()
+        .enumerate()
+        .filter_map(|(i, op)| match op {
+            OpCode::Loop(_, body_len) if body_end(i, *body_len) < n => {
+                Some((body_end(i, *body_len), i))
+            }
+            _ => None,
+        })
+        .collect();
+    ends.sort_unstable();
+    ends.dedup_by_key(|(end, _)| *end);
+    ends.push((n, 0));
+    // full_body[i]: weight of the whole (unclipped) body of the loop at i
+    let mut full_body = vec![0u128; n];
+    // suffix[i]: weight of opcodes[i..end] for the end being handled
+    let mut suffix = vec![0u128; n + 1];
+    for (end, first_loop) in ends {
+        suffix[end] = 0;
+        let stop = if end == n { 0 } else { first_loop + 1 };
+        for i in (stop..end).rev() {
+            let weight = match &opcodes[i] {
+                OpCode::Loop(iters, body_len) => {
+                    let natural_end = body_end(i, *body_len);
+                    let body = if natural_end < end {
+                        full_body[i]
+                    } else {
+                        // the body ends here, or is clipped to here
+                        suffix[i + 1]
+                    };
+                    body.saturating_mul(*iters as u128).saturating_add(1)
+                }
+                _ => opcodes_car_weight(&opcodes[i..=i]).0,
+            };
+            suffix[i] = suffix[i + 1].saturating_add(weight);
+        }
+        if end < n {
+            // record the loops whose body ends exactly here
+            for i in (first_loop..end).rev() {
+                if let OpCode::Loop(_, body_len) = &opcodes[i] {
+                    if body_end(i, *body_len) == end {
+                        full_body[i] = suffix[i + 1];
+                    }
+                }
+            }
+        }
     }
-    sum
+    suffix[0]
 }
 
 /// Compute the weight of the first bit of opcodes, returning a weight and what remains.
